@@ -118,7 +118,7 @@ def replay(run, f, tv):
             run.violation(f"predict/fourth_order/{tv['cell']}", f"attitude after predict differs from the gyro-integrated attitude by {err:.3e} > 1e-9 + 0.01 theta^5 = {tol:.3e}", data)
         if np.max(np.abs(x1[3:] - b)) > 1e-12:
             run.violation("predict/bias_constant", "bias changed in a noise-free prediction", data)
-    elif op in ("accel", "mag"):
+    elif op in ("accel", "mag", "magx"):
         b = np.array(tv["b"], float) / 100.0
         x = np.concatenate([so3_param("mrp", q), b])
         W = Wmat(tv["W"])
@@ -127,10 +127,11 @@ def replay(run, f, tv):
             out = f["correct_accel"](x, W, y, G, np.zeros(3), 35e-3, 0.0, 9.2)
             cell = f"{tv['gate']}/{tv['W']}"
         else:
-            y = 0.1 * np.array(tv["ydir"], float) / tv["yN"]
+            y = 0.1 * (tv.get("sc", 100) / 100.0) * np.array(tv["ydir"], float) / tv["yN"]
             decl = math.atan2(tv["decl"][1], tv["decl"][0])
             out = f["correct_mag"](x, W, y, decl, 2.5e-3, 6.6)
-            cell = f"{tv['W']}"
+            cell = f"{tv['W']}" + (f"/{tv['kind']}" if op == "magx" else "")
+            op = "mag"
         xo = np.array(out[0]).flatten(); Wo = np.array(out[1]); ret = float(out[5])
         data = {"tv": tv, "ret": ret, "x_out": xo.tolist()}
         if ret != ret:
